@@ -14,12 +14,15 @@ for n in names:
         continue
     meta = json.load(open(os.path.join(d, "meta.json")))
     props = [meta["property"]] + meta.get("also_check", [])
-    r = subprocess.run([os.path.join(root, "tools", "eval_seed.py"), d, tier] + props, capture_output=True, text=True)
+    use_tier = tier
+    if meta.get("detect_tier") == "thorough" and os.environ.get("SEEDED_THOROUGH") == "1":
+        use_tier = "thorough"  # changes that need millions of calls in one process: only the thorough tier is expected to see them
+    r = subprocess.run([os.path.join(root, "tools", "eval_seed.py"), d, use_tier] + props, capture_output=True, text=True)
     conf = re.search(r"confirm: (.*)", r.stdout)
     res = re.findall(r"check (\S+) rc=(\d+)", r.stdout)
     first = re.search(r"\n    (.*)", r.stdout)
     ok = any(rc == "1" for p, rc in res if p == meta["property"])
-    if not ok and not meta.get("expected", "").startswith("MISSED"):
+    if not ok and (not meta.get("expected", "").startswith("MISSED") or use_tier == "thorough"):
         missed += 1
     print("%-8s %s %s %s" % (n, "DETECTED" if ok else ("MISSED (expected, residual)" if meta.get("expected") else "MISSED  "), " ".join("%s=%s" % x for x in res), conf.group(1) if conf else r.stdout[-300:]))
     if first:
